@@ -58,7 +58,12 @@ def build_harness(ctx, race=False):
     """go build the harness against /repo's current working tree, hooks on."""
     env = dict(os.environ, **GOENV)
     try:
-        shutil.copyfile(os.path.join(REPO, "go.sum"), os.path.join(HARNESS, "go.sum"))
+        # (atomic, and only when it differs: several checks may build side by side)
+        src, dst = os.path.join(REPO, "go.sum"), os.path.join(HARNESS, "go.sum")
+        if not os.path.exists(dst) or open(src, "rb").read() != open(dst, "rb").read():
+            tmp = "%s.%d" % (dst, os.getpid())
+            shutil.copyfile(src, tmp)
+            os.replace(tmp, dst)
     except OSError:
         pass
     out = os.path.join(ctx.work, "vh-race" if race else "vh")
